@@ -252,7 +252,7 @@ def _e2e(case, wd, V, sit, cnt):
                     if not (0.0 <= z <= hb + 1e-9):
                         V.append(C.viol(f"{where}record at {r.time}: pid {p} at depth {z:.6f} m, bottom depth of the cell it occupied when the step began is {hb:.6f} m", **desc))
                         return False
-                    if mode == 1 and abs(wv * dt) < hb:
+                    if mode == 1 and not both_off and abs(wv * dt) < hb:
                         zz = prev[p][2] + wv * dt
                         ref = -zz if zz < 0 else zz
                         ref = 2 * hb - ref if ref > hb else ref
